@@ -357,6 +357,21 @@ pub struct Presentation {
     pub names: std::collections::BTreeMap<String, String>,
 }
 
+fn all_ones(len: usize) -> u32 {
+    if len >= 32 {
+        u32::MAX
+    } else {
+        (1u32 << len) - 1
+    }
+}
+
+impl ProdStyle {
+    /// Is position `i` written `_`? (for right-hand sides longer than 32 the mask repeats)
+    pub fn skipped(&self, i: usize) -> bool {
+        self.skip_mask >> (i % 32) & 1 == 1
+    }
+}
+
 impl Presentation {
     pub fn plain(g: &Grammar) -> Presentation {
         Presentation {
@@ -395,8 +410,8 @@ impl Presentation {
                 let named = take(2) == 1;
                 let skip_mask = match take(4) {
                     0 | 1 => 0,
-                    2 => (take(1 << rhs.len().min(8)) as u32) & ((1u32 << rhs.len()) - 1),
-                    _ => (1u32 << rhs.len()) - 1,
+                    2 => (take(1 << rhs.len().min(8)) as u32) & all_ones(rhs.len()),
+                    _ => all_ones(rhs.len()),
                 };
                 ProdStyle { named, skip_mask }
             })
@@ -437,6 +452,9 @@ pub fn default_variant_name(k: usize) -> String {
 }
 
 pub fn nonterminal_name(i: usize, naming: u8) -> String {
+    if i >= 26 {
+        return format!("N{i}n"); // the scaled families
+    }
     let j = if naming == 1 { 25 - i } else { i };
     assert!(j < 26);
     let c = UP[j] as char;
@@ -444,6 +462,9 @@ pub fn nonterminal_name(i: usize, naming: u8) -> String {
 }
 
 pub fn terminal_name(i: usize, naming: u8) -> String {
+    if i >= 26 {
+        return format!("T{i}x");
+    }
     let j = if naming == 1 { 25 - i } else { i };
     assert!(j < 26);
     // three characters, so that no terminal name can coincide with a (two-letter) nonterminal name
@@ -477,7 +498,7 @@ pub fn render(g: &Grammar, pr: &Presentation) -> Rendered {
             if st.named {
                 s += " {\n";
                 for (i, x) in rhs.iter().enumerate() {
-                    if st.skip_mask >> i & 1 == 1 {
+                    if st.skipped(i) {
                         s += &format!("{indent}    _: {}\n", sym_src(x));
                         names.push(None);
                     } else {
@@ -493,7 +514,7 @@ pub fn render(g: &Grammar, pr: &Presentation) -> Rendered {
                     if i > 0 {
                         s += " ";
                     }
-                    if st.skip_mask >> i & 1 == 1 {
+                    if st.skipped(i) {
                         s += &format!("_: {}", sym_src(x));
                     } else {
                         s += &sym_src(x);
